@@ -8,17 +8,24 @@ import pipeline
 import talgen
 
 PID = 'C04'
-PROOF_MODULES = ['ChamProofs.Props.C04']
+PROOF_MODULES = ['ChamProofs.Props.C04', 'ChamProofs.Props.C04Spec']
 THEOREMS = ['ChamVerif.C04_caught_set', 'ChamVerif.C04_caught_closure', 'ChamVerif.evalAlts_cons', 'ChamVerif.C04_pipe_first_success',
             'ChamVerif.C04_pipe_uncaught_propagates', 'ChamVerif.C04_cached_read_pure', 'ChamVerif.C04_name_template_first',
-            'ChamVerif.C04_name_unbound']
+            'ChamVerif.C04_name_unbound', 'ChamVerif.C04_false_condition_skips', 'ChamVerif.C04_true_condition_renders',
+            'ChamVerif.C04_unmatched_case_skips', 'ChamVerif.C04_matching_case_closes_first',
+            'ChamVerif.C04_replaced_original_not_evaluated', 'ChamVerif.C01_element_semantics_full']
 LEVEL_TEXT = ('Proved in Lean: the classes a pipe moves on for are exactly {AttributeError, NameError, LookupError, TypeError, ValueError} as '
               'read from the live TalesExpr/ExistsExpr, closed under the subclass relation of the live exception classes '
               '(C04_caught_set, C04_caught_closure); for every pipe, if the alternatives before the k-th raised caught classes and the k-th '
               'succeeds, the result and the whole expression state (evaluation log included) are those after the k-th — no later alternative is '
               'evaluated — and an uncaught class propagates at once (C04_pipe_first_success, C04_pipe_uncaught_propagates, induction over '
               'the alternatives); a cached value is read without evaluating anything (C04_cached_read_pure); template variables win over '
-              'builtins and an unbound name is a NameError (C04_name_*). The evaluator is tied to the code by end-to-end correspondence with '
+              'builtins and an unbound name is a NameError (C04_name_*). Parts that are not rendered are not evaluated - stated on the statement '
+              'semantics the interpreter refines (C01_element_semantics_full), for an arbitrary continuation k standing for everything below the '
+              'statement: a false tal:condition or an unmatched tal:case ends in exactly the state after the guard\'s own evaluation, k is never '
+              'run (C04_false_condition_skips, C04_unmatched_case_skips); a matching case closes the switch before the element renders '
+              '(C04_matching_case_closes_first); a tal:content / tal:replace value other than default is inserted from the cached value, the '
+              'original is not evaluated (C04_replaced_original_not_evaluated). The evaluator is tied to the code by end-to-end correspondence with '
               'recorder logs; arbitrary Python (lambdas, comprehensions, f-strings) is judged by differential testing against plain eval().')
 LEVEL_NOTE = ('Trusted: Lean kernel; harness; Python\'s eval() as the reference for opaque expressions. Known findings: D-04a (a non-matching '
               'tal:case evaluates its expression twice), D-04b (dictionary entries of tal:attributes are evaluated before the named ones).')
